@@ -80,20 +80,28 @@ def _frame_site(m):
 
 
 def gil_site(stack_lines):
-    """innermost frame in gil's io code if there is one, else the innermost frame under /repo/include/boost/gil
-    -> 'stem::class::function' (no line numbers, no template arguments)"""
+    """innermost frame in gil's io code if there is one, else the innermost gil frame
+    -> 'stem::class::function' (no line numbers, no template arguments).  Frames that the symbolizer printed without
+    file:line are recognised by their function name (boost::gil::...)."""
     first = None
     for ln in stack_lines:
         m = FRAME_RE.match(ln)
-        if not m:
+        if m:
+            path = m.group(3)
+            if '/include/boost/gil/' in path and not path.startswith('/usr/include'):
+                if first is None:
+                    first = _frame_site(m)
+                if '/gil/extension/io/' in path or '/gil/io/' in path:
+                    return _frame_site(m)
             continue
-        path = m.group(3)
-        if '/include/boost/gil/' in path and not path.startswith('/usr/include'):
+        m = FRAME_NOFILE_RE.match(ln)
+        if m and m.group(2) and 'boost::gil::' in m.group(2) and not m.group(2).startswith('sim::') and ' sim::' not in m.group(2).split('boost::gil::')[0]:
+            site = '?::' + norm_func(m.group(2))
             if first is None:
-                first = m
-            if '/gil/extension/io/' in path or '/gil/io/' in path:
-                return _frame_site(m)
-    return _frame_site(first) if first else None
+                first = site
+            if re.search(r'boost::gil::(detail::)?(reader|scanline_reader|writer|reader_backend|writer_backend|dynamic_image_reader|[a-z_]*device)', m.group(2)):
+                return site
+    return first
 
 
 def third_party_only(stack_lines):
